@@ -197,3 +197,11 @@ package xlsx
 //@     invariant minCol <= col && col <= maxCol + 1 && len(rowData) == col - minCol
 //@     invariant forall c int :: {rowData[c]} 0 <= c && c < col - minCol && minCol + c < len(sheet.Rows[row]) ==> rowData[c] == sheet.Rows[row][minCol + c].Value
 //@     decreases maxCol + 1 - col
+
+// ---- C10: Close releases the archive handle the reader owns, once; closing again is harmless ----
+//@ func (*Reader) Close results (err)
+//@   property C10
+//@   count closed: Close() when true
+//@   ensures handle_released: !isnil(old(r.zipReader)) ==> closed == 1
+//@   ensures nothing_left_to_close: isnil(r.zipReader)
+//@   ensures second_close_is_a_no_op: isnil(old(r.zipReader)) ==> closed == 0 && !err
